@@ -1,0 +1,18 @@
+//go:build verif
+
+package core
+
+// This file is only compiled with the "verif" build tag. It exports unexported
+// functions to the external verification harness without changing any call
+// site.
+
+// VerifSynchronizable exposes Entry.synchronizable.
+func VerifSynchronizable(e *Entry) *Entry { return e.synchronizable() }
+
+// VerifDiffAt exposes diff with an explicit base path.
+func VerifDiffAt(path string, base, target *Entry) []*Change { return diff(path, base, target) }
+
+// VerifNormalizePortableLink exposes normalizeSymbolicLinkAndEnsurePortable.
+func VerifNormalizePortableLink(path, target string) (string, error) {
+	return normalizeSymbolicLinkAndEnsurePortable(path, target)
+}
